@@ -332,7 +332,7 @@ func (s *Sim) peerIndex(key string) int {
 // RunLiveStack is RunLive with the REAL reactor stack instead of the relay: every honest node gets a real ConsensusReactor on a
 // real p2p.Switch, the switches are connected pairwise (p2p.MakeConnectedSwitches over net.Pipe, real MConnections), and all
 // gossip is done by the reactors' own routines. Byzantine validators are simply absent.
-func RunLiveStack(dir string, powers []int64, byz []int, maxRound int64, heights int64, limit time.Duration, scale int) (*Sim, []LiveEvent, error) {
+func RunLiveStack(dir string, powers []int64, byz []int, maxRound int64, heights int64, limit time.Duration, scale int, laggard int, lagUntil int64, stopNode int) (*Sim, []LiveEvent, error) {
 	pbft.VerifTraceMaxRound = maxRound
 	var (
 		mtx    sync.Mutex
@@ -364,43 +364,98 @@ func RunLiveStack(dir string, powers []int64, byz []int, maxRound int64, heights
 	}
 	mtx.Unlock()
 	cfg := viper.New()
+	var deferred [][2]int // connections of the laggard: made once the others have committed lagUntil blocks
 	switches := p2p.MakeConnectedSwitches(cfg, len(honest), func(k int, sw *p2p.Switch) *p2p.Switch {
 		sw.AddReactor("CONSENSUS", reactors[k])
 		return sw
-	}, p2p.Connect2Switches)
+	}, func(sw []*p2p.Switch, a, b int) {
+		if a == b {
+			return
+		}
+		if laggard != 0 && (honest[a] == laggard || honest[b] == laggard) {
+			deferred = append(deferred, [2]int{a, b})
+			return
+		}
+		p2p.Connect2Switches(sw, a, b)
+	})
 	s.PeerIdx = map[string]int{}
 	for k, sw := range switches {
 		s.PeerIdx[sw.NodeInfo().PubKey.KeyString()] = honest[k]
 	}
 	deadline := time.Now().Add(limit)
 	var rerr error
+	stopped := 0
 	for {
 		done := true
 		for _, i := range honest {
-			if s.Nodes[i].Store.Height() < heights {
+			if i != stopped && s.Nodes[i].Store.Height() < heights {
 				done = false
 			}
 		}
 		if done {
 			break
 		}
+		if len(deferred) > 0 {
+			ahead := true
+			for _, i := range honest {
+				if i != laggard && i != stopped && s.Nodes[i].Store.Height() < lagUntil {
+					ahead = false
+				}
+			}
+			if ahead {
+				// optionally one validator goes silent for good at this moment: the others now NEED the laggard
+				if stopNode != 0 {
+					for k, i := range honest {
+						if i == stopNode {
+							stopped = i
+							done := make(chan struct{})
+							go func() { switches[k].Stop(); close(done) }()
+							select {
+							case <-done:
+							case <-time.After(5 * time.Second):
+							}
+						}
+					}
+				}
+				for _, pr := range deferred {
+					if honest[pr[0]] == stopped || honest[pr[1]] == stopped {
+						continue
+					}
+					p2p.Connect2Switches(switches, pr[0], pr[1])
+				}
+				deferred = nil
+			}
+		}
 		if time.Now().After(deadline) {
-			rerr = fmt.Errorf("not every honest node committed %d blocks within %v", heights, limit)
+			rerr = fmt.Errorf("not every honest node committed %d blocks within %v (heights %v)", heights, limit, s.storeHeights())
 			break
 		}
 		time.Sleep(5 * time.Millisecond)
 	}
-	for _, sw := range switches {
-		sw.Stop()
-	}
-	for _, i := range honest {
+	if rerr == nil {
+		// orderly stop (bounded: a wedged routine must not hang the harness; the process exits right after the trace is written)
+		fin := make(chan struct{})
+		go func() {
+			for _, sw := range switches {
+				sw.Stop()
+			}
+			close(fin)
+		}()
 		select {
-		case <-waitCh(s.Nodes[i].CS):
-		case <-time.After(2 * time.Second):
+		case <-fin:
+		case <-time.After(10 * time.Second):
 		}
 	}
 	mtx.Lock()
 	out := append([]LiveEvent(nil), events...)
 	mtx.Unlock()
 	return s, out, rerr
+}
+
+func (s *Sim) storeHeights() map[int]int64 {
+	out := map[int]int64{}
+	for _, i := range s.HonestIdx() {
+		out[i] = s.Nodes[i].Store.Height()
+	}
+	return out
 }
